@@ -160,6 +160,22 @@ def explore(chk):
             if tl2 != [ref_settings(la), ref_settings(lc)]:
                 chk.property_failure({"set": d2, "output": doc2, "cue_settings": tl2, "spec": [ref_settings(la), ref_settings(lc)]},
                                      "webvtt: a text node without a layout of its own is not written with its caption's / language's layout")
+        # one layout (with padding) shared by several cues -- inherited from the language, or one Layout object attached to
+        # several captions: every cue gets the same settings, the first one's
+        from pycaption import CaptionSet as _CS, CaptionList as _CL, Caption as _C, CaptionNode as _N
+        sub_ = chk.sub("shared_layout")
+        ld = {"origin": ["%d%%" % sub_.choice([5, 10, 20]), "%d%%" % sub_.choice([10, 40])], "extent": ["%d%%" % sub_.choice([50, 60]), "30%"],
+              "padding": ["2%", "2%", "5%", "5%"], "align": [sub_.choice(["left", "right", "center"]), "top"]}
+        L_ = setbuild.mk_layout(ld)
+        how = sub_.choice(["language", "same_object"])
+        caps_ = [_C((2 * i_ + 1) * 1000000, (2 * i_ + 2) * 1000000, [_N.create_text("cue %d" % i_)], layout_info=(L_ if how == "same_object" else None)) for i_ in range(3)]
+        cs3 = _CS({"en-US": _CL(caps_, layout_info=(L_ if how == "language" else None))})
+        doc3 = core.POOL.get(pycaption.WebVTTWriter).write(cs3)
+        tl3 = [l.split(" ", 3)[3:] for l in doc3.split("\n") if "-->" in l]
+        chk.case(key=("shared_layout", json.dumps(ld), how), nontrivial=True); chk.count("vtt_shared_layout")
+        if len(tl3) != 3 or tl3[1] != tl3[0] or tl3[2] != tl3[0] or tl3[0] != ref_settings(ld):
+            chk.property_failure({"layout": ld, "shared_through": how, "output": doc3, "spec_settings": ref_settings(ld)},
+                                 "webvtt: cues that share one layout do not all get that layout's settings")
         raw = rng.choice(["line:10% align:left", "position:5%,line-left size:40%", "vertical:rl", "align:center line:-2"])
         src = "WEBVTT\n\n00:01.000 --> 00:02.000 %s\nhi\n" % raw
         back = pycaption.WebVTTWriter().write(pycaption.WebVTTReader().read(src))
@@ -237,14 +253,26 @@ def explore(chk):
             back = core.POOL.get(pycaption.DFXPReader).read(doc)
         except Exception as e:
             chk.property_failure(dict(case, error=repr(e)[:300]), "dfxp write/read raised on percentage layouts"); continue
-        from pycaption.base import BaseWriter
-        bw = BaseWriter(**opts)
+        fit_on = opts.get("fit_to_screen", True)
+        def fitted(d_):
+            """fit-to-screen of a percentage layout, computed here from the property's wording: with an origin, a missing extent
+            reaches the 90% / 95% edges, an extent that runs past an edge is cut back to it, one that fits is kept"""
+            if d_ is None or not fit_on or not d_.get("origin"):
+                return d_
+            x_, y_ = [Fraction(v_[:-1]) for v_ in d_["origin"]]
+            if d_.get("extent"):
+                w_, h_ = [Fraction(v_[:-1]) for v_ in d_["extent"]]
+                if x_ + w_ > 90: w_ = 90 - x_
+                if y_ + h_ > 95: h_ = 95 - y_
+            else:
+                w_, h_ = 90 - x_, 95 - y_
+            return dict(d_, extent=["%s%%" % float(w_), "%s%%" % float(h_)])
         def eff(node_l, cap_l, lang_l):
             l = None
             if node_l is not None:
-                l = bw._relativize_and_fit_to_screen(setbuild.mk_layout(node_l))
+                l = setbuild.mk_layout(fitted(node_l))
             elif cap_l is not None:
-                l = bw._relativize_and_fit_to_screen(setbuild.mk_layout(cap_l))
+                l = setbuild.mk_layout(fitted(cap_l))
             elif lang_l is not None:
                 l = setbuild.mk_layout(lang_l)
             return l
